@@ -6,7 +6,8 @@ import KM.Model.Oidc
 `tok <nowSec> <issuerHex> <keys> <clients> <method> <grant> <redirectHex> <verifierHex> <basic> <formIdHex>
      <formSecretHex> <s256(verifier)Hex> <prot> <alg> <by> <sigAlg> <wire>`
   clients = `idhex:secrethex,…`   basic = `-` | `idhex:secrethex`   prot = `-` | `methodhex:challengehex`
-`ui <nowSec> <issuerHex> <keys> <alg> <by> <sigAlg> <wire>` -/
+`ui <nowSec> <issuerHex> <keys> <alg> <by> <sigAlg> <wire>`
+judge only: `uij <nowSec> <issuerHex> <keys> <alg> <by> <sigAlg> <wire> <answered user hex | ->` -/
 namespace KM.Driver.C12
 open KM.Util KM.Token KM.Oidc KM.Driver.C04
 
@@ -141,6 +142,23 @@ def model (fs : List String) : String :=
 def judge (fs : List String) : String :=
   match fs with
   | "rel" :: rest => (relJudge rest).getD "bad-op"
+  | ["uij", ns, iss, keys, alg, by_, sig, wire, ans] =>
+    -- what userinfo answered (`-` = refused, else the user in hex) for a presented token: `userinfoAllowed`
+    (do
+      let d : Deployment := { issuer := ← strOfHex iss, trusted := ← parseKeys keys }
+      let signedBy ← (if by_ == "-" then some none else by_.toNat?.map some)
+      let a : Artefact := { claims := ← parseWire wire, alg := ← parseAlg alg, signedBy := signedBy, sigAlg := ← parseAlg sig }
+      let cfg : Cfg := { dep := d, clients := [], s256 := fun _ => [], openSealed := fun _ _ _ => none }
+      let now : Clock := { sec := ← ns.toInt?, nsec := 0 }
+      if ans == "-" then pure "ok" else
+      let u ← strOfHex ans
+      pure (if userinfoAllowed cfg now a u then "ok" else
+        "viol userinfo-answered " ++ ",".intercalate (
+          (if !signedByDeployment d a then ["token-not-signed-by-deployment"] else []) ++
+          (if !(gStr a.claims .typ == KM.Gen.C04.accessType) then ["not-an-access-token"] else []) ++
+          (if !decide (now.sec ≤ gInt a.claims .exp) then ["access-token-expired"] else []) ++
+          (if !(gStr a.claims .iss == d.issuer) then ["foreign-issuer"] else []) ++
+          (if !(u == gStr a.claims .username) then ["another-user"] else [])))).getD "bad-op"
   | ["jwv", pub, alg, by_] =>
     -- a released token (header alg, signing key) against the key set the implementation published
     (do
